@@ -14,6 +14,8 @@ from refmodel import counted_keys, independent_entry_valid, keylist_ok, payload_
 from seams import exc_site
 from world_envelope import EnvelopeWorld, ATTACKS
 
+LOOKALIKES = [("pkg_mgr", "Pkg_Mgr"), ("channel-strasse", "channel-stra\u00dfe"), ("\ufb01xes", "fixes"), ("K", "\u212a"), ("\u00e9", "e\u0301"),
+              ("pkg_mgr", "pkg_mgr\u200b"), ("key_mgr", "KEY_MGR"), ("a\u0130", "ai\u0307"), ("\uff52oot", "root")]
 ROLE_POOL = ["key_mgr", "pkg_mgr", "root", "decoy", "key_mgr ", "Key_mgr", "key_mgr.json", "", "é", "pkg_mgr2", "pkg_mgr.json", "root.json",
              "{}", "{0}", "{role}", "key_mgr{0.x}", "%s", "{", "key_mgr_staging", "subroot"]
 MD_TYPES = ["root", "key_mgr", "key_mgr", "pkg_mgr", "Root", "decoy"]
@@ -87,6 +89,50 @@ class DelegWorld(EnvelopeWorld):
                 gen.set_path(T, op["path"], op["value"])
         self.run.fault("trusted_document_changed_in_place")
 
+    def op_twin_trusted(self, op):
+        """The genuine trusted document is used, then a copy in which numbers are respelled as their Python-== twins (2 -> 2.0,
+        1 -> True).  The copy is malformed by the documented schema (thresholds and versions are integers).  Every outcome on the
+        copy must be what it is on freshly imported library state (C12), and the verifier must not accept under it."""
+        e, n = op["env"], op["trusted"]
+        if e >= len(self.envs) or n >= len(self.trusted):
+            return self.run.ev("noop")
+        E, T = self.envs[e], self.trusted[n]
+        role, gpg = op["role"], op["gpg"]
+        T2 = copy.deepcopy(T)
+        changed = False
+        try:
+            for rname, d in T2["signed"]["delegations"].items():
+                t = d.get("threshold")
+                if type(t) is int and abs(t) < 2**53 and (op["what"] == "all" or rname == role):
+                    d["threshold"] = True if (t == 1 and op.get("as_bool")) else float(t)
+                    changed = True
+            if op["what"] == "version" and type(T2["signed"].get("version")) is int and abs(T2["signed"]["version"]) < 2**53:
+                T2["signed"]["version"] = float(T2["signed"]["version"])
+                changed = True
+        except (KeyError, TypeError, AttributeError):
+            return self.run.ev("noop")
+        if not changed:
+            return self.run.ev("noop")
+        self.run.fault("trusted_twin_numbers")
+        # the genuine document first (whatever it is), through the checker and the verifier
+        self.calls.raw("checkformat_delegating_metadata", T)
+        o = self.calls.call("verify_delegation", role, E, T, gpg=gpg)
+        self._judge_deleg(role, E, T, gpg, o, self.env_faults[e], e=e)
+        if self.run.stop:
+            return
+        for name, args, kw in (("checkformat_delegating_metadata", (T2,), {}), ("verify_delegation", (role, E, T2), {"gpg": gpg})):
+            fresh = self.calls.fresh_outcome(name, args, kw)
+            o2 = self.calls.raw(name, *args, **kw)
+            mine = (o2.ok, "return" if o2.ok else o2.cls)
+            if fresh is not None and fresh != mine:
+                self.run.violate(("C12",), "outcome-depends-on-history", "%s on a twin of the trusted document gave %s after the genuine document had "
+                                 "been used, but %s on freshly imported library state" % (name, mine[1], fresh[1]), "outcome-depends-on-history:" + name)
+                return
+            if name == "verify_delegation" and o2.ok and not op.get("as_bool"):      # JSON true for 1: isinstance(True, int) - left unjudged
+                self.run.violate(self.history_tag(("C05", "C12"), o2, lambda: self.calls.raw(name, *args, **kw)), "accepted-under-malformed-trusted",
+                                 "verify_delegation accepted under a trusted document whose thresholds / version are not integers", "accepted-under-malformed-trusted")
+                return
+
     def op_twin_vdel(self, op):
         """verify_delegation first on a twin of the envelope (one integer respelled as a float, or a CRC twin), then on
         the genuine envelope: the second verdict must not depend on the first."""
@@ -109,7 +155,7 @@ class DelegWorld(EnvelopeWorld):
 
     def op_new_md(self, op):
         md = {"type": op["type"], "version": op.get("version", 1), "metadata_spec_version": op.get("spec", "0.6.0"),
-              "timestamp": op.get("ts", "2021-01-01T00:00:00Z"), "expiration": "2031-01-01T00:00:00Z",
+              "timestamp": op.get("ts", "2021-01-01T00:00:00Z"), "expiration": op.get("exp", "2031-01-01T00:00:00Z"),
               "delegations": self._dels(op.get("dels", {}))}
         if op.get("extra"):
             md["x-" + str(op["extra"])] = op["extra"]
@@ -221,6 +267,9 @@ class DelegWorld(EnvelopeWorld):
             roles[0] = "key_mgr"
         if rng.random() < 0.25:
             roles = [r for r in roles if r != "key_mgr"] + [rng.choice(["key_mgr.json", "key_mgr_staging", "pkg_mgr.json"])]
+        if rng.random() < 0.15:
+            # two different names that a normalising or case-insensitive reader would take for one
+            roles = [r for r in roles if r not in ("pkg_mgr",)] + list(rng.choice(LOOKALIKES))
         spec = {}
         for r in roles:
             idx = sorted(rng.sample(range(nk), rng.randint(0, min(nk, 4))))
@@ -254,8 +303,12 @@ class DelegWorld(EnvelopeWorld):
                       "version": rng.choice([1, 3]), "gpg": rng.random() < self.h["gpg_bias"]}
                 if rng.random() < 0.35:
                     op["spec"] = rng.choice(["0.6.0", "0.1.0", "0.0.5", "1.0.0", "2.3.4", "0.6", "v0.6.0", "0.6.0-rc1", "", "é"])
-                if rng.random() < 0.2:
-                    op["ts"] = rng.choice(["2024-02-29T23:59:59Z", "1999-12-31T23:59:59Z"])
+                if rng.random() < 0.3:
+                    op["ts"] = rng.choice(["2024-02-29T23:59:59Z", "1999-12-31T23:59:59Z", "2020-02-29T00:00:00Z", "1970-01-01T00:00:00Z", "2038-01-19T03:14:08Z",
+                                           "9999-12-31T23:59:59Z", "0001-01-01T00:00:00Z", "2025-12-29T12:00:00Z", "2021-03-28T01:30:00Z", "2016-12-31T23:59:59Z"])
+                if rng.random() < 0.3:
+                    op["exp"] = rng.choice(["2025-02-28T23:59:59Z", "2024-02-29T00:00:00Z", "1999-12-31T23:59:59Z", "9999-12-31T23:59:59Z", "2038-01-19T03:14:07Z",
+                                            "1970-01-01T00:00:00Z", "0001-01-01T00:00:00Z", "2027-01-01T00:00:00Z", "2100-02-28T00:00:00Z", "2023-10-29T01:30:00Z"])
                 if rng.random() < 0.25:
                     op["extra"] = rng.choice(["note", 7, "é", "中文", "\udc80", "\U0001f600", "comment with spaces"])
                 if rng.random() < 0.1:
@@ -280,6 +333,9 @@ class DelegWorld(EnvelopeWorld):
             gpg = self.env_gpg[e] if rng.random() < 0.9 else (not self.env_gpg[e])
             if rng.random() < 0.02:
                 gpg = rng.choice([None, 1, 0, "yes"])
+            if rng.random() < 0.06 and isinstance(role, str) and gpg in (True, False):
+                return {"op": "twin_trusted", "role": role, "env": e, "trusted": n, "gpg": gpg, "what": rng.choice(["role", "all", "all", "version"]),
+                        "as_bool": rng.random() < 0.3}
             if rng.random() < 0.12 and isinstance(role, str) and gpg in (True, False):
                 return {"op": "twin_vdel", "role": role, "env": e, "trusted": n, "gpg": gpg, "kind": rng.choice(["pyeq", "pyeq", "crc"]),
                         "twin_first": rng.random() < 0.7}
